@@ -122,12 +122,12 @@ class Positions:
         if x.get("k") != "call" or not x.get("args"):
             return None
         g = self.fb.resolve_call(x)
-        if g is None or g is self.look or g.rec != self.L["cls"] or g.key == self.f.key:
+        if g is None or self.look is None or g is self.look or g.rec != self.L["cls"] or g.key == self.f.key:
             return None
         return x if pointer_finder(self.fb, g, self.vec, self.look, self.L) else None
 
     def on_vec(self, x, names):
-        x = _unwrap(x)
+        x = _unwrap(facts.expand(self.f, x))
         return x.get("k") == "call" and (x.get("callee") or {}).get("nm") in names and strip_all_casts(x.get("obj", {})).get("field") == self.vec
 
     def count_like(self, x):
@@ -155,13 +155,18 @@ class Positions:
 
     def index(self, e):
         x = _unwrap(facts.expand(self.f, e, 4))
-        if x.get("k") == "call" and self.fb.resolve_call(x) is self.look:
+        if x.get("k") == "call" and self.look is not None and self.fb.resolve_call(x) is self.look:
             return "found"
         if x.get("k") == "call" and callee_name(x) == "std::distance" and len(x.get("args", [])) == 2 and self.on_vec(x["args"][0], ("begin", "cbegin")) and \
                 self.iterator(x["args"][1]) == "found":
             return "found"
         if x.get("k") == "bin" and x.get("op") == "-" and const_value(x["r"]) == 1 and self.count_like(x["l"]):
             return "last"
+        if x.get("k") == "call" and x.get("op") == "-" and len(x.get("args", [])) + (1 if "obj" in x else 0) == 2:
+            # iterator difference `found - begin()`
+            ops = ([x["obj"]] if "obj" in x else []) + x.get("args", [])
+            if self.on_vec(ops[1], ("begin", "cbegin")) and self.iterator(ops[0]) == "found":
+                return "found"
         return None
 
     def iterator(self, e):
@@ -361,6 +366,13 @@ def run(ctx):
                 raise Broken("%s: lookup is neither find_if/distance nor an index loop; re-derive C16-R5" % look.name)
             res.check(ok2, "C16-R5", "%s:lookup" % short, look.loc, "index loop over the whole vector returning the first match, else the count", why2)
         else:
+            if not (okc and pred_ok) and len(rets) == 1 and len(fi) == 1:
+                # the same search spelled with named iterators / an iterator difference
+                posl = Positions(fb, look, vec, None, L)
+                idn = posl.key_predicate(fi[0]["args"][2]) if len(fi[0].get("args", [])) == 3 else None
+                if posl.index(rets[0]["e"]) == "found" and idn is not None and look.params[0]["decl"] in reads(facts.expand(look, idn)) and \
+                        not called_names(facts.expand(look, idn)):
+                    okc = pred_ok = True
             res.check(okc and pred_ok, "C16-R5", "%s:lookup" % short, look.loc, "distance(begin, find_if(begin, end, element key == id)) over the whole vector",
                       "%s is not `distance(begin, find_if(begin, end, element-key == id))` (whole range=%s)" % (look.name, okc))
         # ---- R1 key agreement on update
